@@ -291,6 +291,34 @@ func (c *Ctx) strategyHealthGuard(only ...string) {
 	}
 }
 
+// selectionComplete: a strategy that saw a candidate pass the health test does not answer nil.
+func (c *Ctx) selectionComplete(only ...string) {
+	p := c.P
+	for _, n := range c.strategyImpls() {
+		if len(only) > 0 && !contains(only, n.Obj().Name()) {
+			continue
+		}
+		fn := p.Fn("internal/loadbalancer", n.Obj().Name(), "NextBackend")
+		construct := "loadbalancer.(*" + n.Obj().Name() + ").NextBackend"
+		sp := &Spec{Cond: p.anyCondLabel(), Expand: func(*ssa.Function, ssa.CallInstruction) bool { return false }}
+		c.traceRule("selection-complete", construct, fn, sp,
+			"on no path does the strategy return nil after a candidate passed the health test",
+			func(t *Trace) string {
+				if len(t.Ret) != 1 || t.Ret[0].K != ANil {
+					return ""
+				}
+				for _, it := range t.Items {
+					if ifi, ok := it.Instr.(*ssa.If); ok {
+						if _, healthy := c.healthTrue(ifi.Cond, it.Pol); healthy {
+							return "the strategy answers 'no backend' although a candidate passed the health test on this path: the client gets 503 while a backend is healthy"
+						}
+					}
+				}
+				return ""
+			})
+	}
+}
+
 func checkC02(c *Ctx) {
 	p := c.P
 	c.Clause("the backend handed to proxyRequest is the result of findHealthyBackend, and every non-nil result of findHealthyBackend passed IsBackendHealthy(thatBackend)")
@@ -303,6 +331,7 @@ func checkC02(c *Ctx) {
 	c.eligibilityPredicate()
 	c.ejectorTotal()
 	c.strategyHealthGuard()
+	c.selectionComplete()
 
 	handle := p.Fn("internal/loadbalancer", "LoadBalancer", "handleRequest")
 	sp := c.lbSpec()
@@ -576,6 +605,7 @@ func checkC04(c *Ctx) {
 	})
 	c.healthWriters()
 	c.ejectorTotal()
+	c.statusCaptured()
 	c.passiveThreshold()
 	c.probeEdges()
 	c.healthMirror()
@@ -1047,6 +1077,26 @@ func reaches(from, to *ssa.BasicBlock, seen map[*ssa.BasicBlock]bool) bool {
 	seen[from] = true
 	for _, s := range from.Succs {
 		if reaches(s, to, seen) {
+			return true
+		}
+	}
+	return false
+}
+
+// reachesAvoiding: a path from `from` to `to` exists that does not pass through `avoid`.
+func reachesAvoiding(from, to, avoid *ssa.BasicBlock, seen map[*ssa.BasicBlock]bool) bool {
+	if from == avoid {
+		return false
+	}
+	if from == to {
+		return true
+	}
+	if seen[from] {
+		return false
+	}
+	seen[from] = true
+	for _, s := range from.Succs {
+		if reachesAvoiding(s, to, avoid, seen) {
 			return true
 		}
 	}
